@@ -58,3 +58,74 @@ mutant('c02-index-string-wrap','C02','IndexValue',V+'index.go','''		length := in
 		if index < 0 {
 			index = index + length + 1
 		}''')
+# C16
+VM='homescript/runtime/vm.go'
+mutant('c16-wait-keeps-rlock','C16','Wait#post:locks-released',VM,'''					self.Cores.Cores = make([]Core, 0)
+					self.Cores.Lock.Unlock()
+
+					return core.Corenum, i''','''					self.Cores.Cores = make([]Core, 0)
+					self.Cores.Lock.Unlock()
+
+					self.Cores.Lock.RLock()
+
+					return core.Corenum, i''')
+mutant('c16-wait-double-unlock','C16','Wait',VM,'''		if len(self.Cores.Cores) == 0 {
+			self.Cores.Lock.RUnlock()
+			break
+		}
+
+		self.Cores.Lock.RUnlock()''','''		if len(self.Cores.Cores) == 0 {
+			self.Cores.Lock.RUnlock()
+		}
+
+		self.Cores.Lock.RUnlock()''')
+mutant('c16-wait-cores-kept','C16','Wait#post:no-cores-left',VM,'''					(*self.CancelFunc)()
+
+					self.Cores.Cores = make([]Core, 0)
+''','''					(*self.CancelFunc)()
+
+''')
+mutant('c16-args-not-inverted','C16','SpawnSync#assert:declared-order',VM,'''		invertedArgs[argCIdx-idx] = invocation.Args[idx]
+	}
+
+	coreHandle := self.spawnCoreInternal(''','''		invertedArgs[idx] = invocation.Args[idx]
+	}
+
+	coreHandle := self.spawnCoreInternal(''')
+mutant('c16-args-off-by-one','C16','SpawnAsync',VM,'''	for idx := argCIdx; idx >= 0; idx-- {
+		invertedArgs[argCIdx-idx] = invocation.Args[idx]
+	}
+
+	return self.spawnCoreInternal(''','''	for idx := argCIdx; idx > 0; idx-- {
+		invertedArgs[argCIdx-idx] = invocation.Args[idx]
+	}
+
+	return self.spawnCoreInternal(''')
+mutant('c16-termination-drops-exception','C16','HandleTermination#post:failure',VM,'''	if interrupt != nil {
+		return FunctionInvocationResult{
+			Exception: &VMException{
+				CoreNum:   exceptionCore,
+				Interrupt: *interrupt,
+			},''','''	if interrupt != nil && exceptionCore != 0 {
+		return FunctionInvocationResult{
+			Exception: &VMException{
+				CoreNum:   exceptionCore,
+				Interrupt: *interrupt,
+			},''')
+mutant('c16-stack-seed-skips','C16','spawnCoreInternal',VM,'''	for _, elem := range addToStack {
+		// TODO: However, the VM should not do this implicitly,
+		// Smarter would be to insert clones manually?
+		core.push(value.AsPtr(elem)) // Implement a deep copy? Or clone?
+	}''','''	for idx, elem := range addToStack {
+		if idx > 0 && elem == nil {
+			continue
+		}
+		core.push(value.AsPtr(elem)) // Implement a deep copy? Or clone?
+	}''')
+# C09 interpreter
+IU='homescript/interpreter/util.go'
+mutant('c09-interp-closure-depth','C09','callFunc#post:t-depth-balanced',IU,'''		defer func() {
+			self.callStackSize--
+			// pop the closure scope again''','''		defer func() {
+			// pop the closure scope again''')
+mutant('c09-interp-limit-check','C09','callFunc#post:limit',IU,'	if self.callStackSize > self.callStackLimitSize {','	if self.callStackSize > self.callStackLimitSize+1 {')
